@@ -212,7 +212,7 @@ func c07History(c *Ctx) {
 		// a background refresh starts after its request has been answered and recycled; released buffers
 		// go straight back to the pool (no quarantine), so whatever still points into them sees the
 		// next request's data, as in production
-		Env: map[string]string{"VERIF_POINTS": "prefetch.start=sleep(2ms,100.0%)", "VERIF_POOL_QUARANTINE": "0"},
+		Env:       map[string]string{"VERIF_POINTS": "prefetch.start=sleep(2ms,100.0%)", "VERIF_POOL_QUARANTINE": "0"},
 		Listeners: []string{"udp", "tcp", "gnet", "tls", "http", "fasthttp", "https", "quic"}, UdpRcvBuf: 8 << 20})
 	if err != nil {
 		c.startFailure(err, "c07-hist")
